@@ -18,12 +18,49 @@ pub enum Case {
 fn from_tape(data: &[u16], tier: Tier, max_depth: u8) -> Option<(usize, Vec<SearchSpec>, SearchSpec)> {
     let mut t = Tape::new(data);
     let hash_mb = pick_hash(&mut t, tier).min(16);
-    let (fen, moves, _pos, _) = gen_game(&mut t, 2, 10)?;
+    let (fen, moves, final_pos, _) = gen_game(&mut t, 2, 10)?;
     let main = SearchSpec { fen: fen.clone(), moves: moves.clone(), limit: Limit::Depth(1 + t.pick(max_depth as usize) as u8) };
     let n = t.pick(6);
     let mut priors = vec![];
     for _ in 0..n {
-        let (f, m) = match t.pick(3) {
+        let (f, m) = match t.pick(4) {
+            3 => {
+                // a look-alike of the position that will be searched in the end: the same squares with
+                // the colours exchanged in place, the colour-mirrored twin, the other side to move, or one
+                // man of another kind - whatever an earlier search remembers under a partial description
+                // of a position (occupied squares, pawn squares, part of the key) is then met again
+                let mut q = final_pos.clone();
+                match t.pick(4) {
+                    0 => {
+                        for s in 0..64 {
+                            if let Some(pc) = q.board[s] {
+                                q.board[s] = Some(crate::refchess::Pc::new(!pc.white, pc.kind));
+                            }
+                        }
+                        q.white_to_move = !q.white_to_move;
+                        q.castle = [false; 4];
+                        q.ep = None;
+                    }
+                    1 => q = q.mirror(),
+                    2 => {
+                        q.white_to_move = !q.white_to_move;
+                        q.ep = None;
+                    }
+                    _ => {
+                        let men: Vec<usize> = (0..64).filter(|s| q.board[*s].map_or(false, |pc| pc.kind != crate::refchess::Kind::K && pc.kind != crate::refchess::Kind::P)).collect();
+                        if !men.is_empty() {
+                            let s = men[t.pick(men.len())];
+                            let pc = q.board[s].unwrap();
+                            let kinds = [crate::refchess::Kind::N, crate::refchess::Kind::B, crate::refchess::Kind::R, crate::refchess::Kind::Q];
+                            q.board[s] = Some(crate::refchess::Pc::new(pc.white, kinds[t.pick(4)]));
+                        }
+                    }
+                }
+                if q.validate().is_err() || q.legal_moves().is_empty() {
+                    continue;
+                }
+                (q.to_fen(), vec![])
+            }
             0 => {
                 let mut mv = moves.clone();
                 mv.truncate(t.pick(moves.len() + 1));
